@@ -1,62 +1,76 @@
 #!/usr/bin/env python3
-"""Prototype translator: reads constants and variation points out of /repo/purl/src."""
+"""Translator: reads the constants and a closed list of variation points out of /repo/purl/src.
+Anything it does not recognise is reported in 'problems' (never guessed)."""
 import re, sys, json
 root = sys.argv[1] if len(sys.argv) > 1 else '/repo/purl/src'
-def read(p): return open(f'{root}/{p}').read()
+def read(p):
+    try: return open(f'{root}/{p}').read()
+    except OSError: return ''
 out = {'problems': []}
+def attempt(name, f):
+    try: f()
+    except Exception as e: out['problems'].append(f'{name}: source form not recognised ({type(e).__name__}: {e})')
 def byte_lit(s):
-    m = re.fullmatch(r"b'(\\.|[^\\])'", s)
+    m = re.fullmatch(r"b'(\\.|\\x[0-9a-fA-F]{2}|[^\\])'", s)
     if not m: raise ValueError(s)
     c = m.group(1)
+    if c.startswith('\\x'): return int(c[2:], 16)
     esc = {'\\\\': '\\', "\\'": "'", '\\"': '"', '\\n': '\n', '\\t': '\t', '\\0': '\0', '\\r': '\r'}
     return ord(esc.get(c, c))
-# --- escape sets
-fmt = read('format.rs')
-sets = {'CONTROLS': set(range(0, 32)) | {127}}
-for m in re.finditer(r'const\s+(\w+)\s*:\s*&AsciiSet\s*=\s*&\s*(\w+)((?:\s*\.\s*(?:add|remove)\(b\'(?:\\.|[^\\])\'\))*)\s*;', fmt):
-    name, base, chain = m.groups()
-    if base not in sets: out['problems'].append(f'set {name}: unknown base {base}'); continue
-    cur = set(sets[base])
-    for op, lit in re.findall(r"\.\s*(add|remove)\((b'(?:\\.|[^\\])')\)", chain):
-        (cur.add if op == 'add' else cur.discard)(byte_lit(lit))
-    sets[name] = cur
-    out.setdefault('sets', {})[name] = {'line': fmt[:m.start()].count('\n') + 1, 'members': sorted(cur)}
-use = {}
-for m in re.finditer(r'utf8_percent_encode\(\s*([\w.()]+)\s*,\s*(\w+)\s*\)', fmt):
-    arg = m.group(1).replace('self.', '').replace('()', '')
-    use.setdefault(arg, []).append(m.group(2))
-out['use'] = use
-# --- char lists
-def char_list(src, fn_hint, const):
-    m = re.search(const + r"\s*:\s*&\[char\]\s*=\s*&\[([^\]]*)\]", src)
-    if not m: out['problems'].append(f'{const} near {fn_hint}: not found'); return None
+fmt = read('format.rs'); lib = read('lib.rs'); q = read('qualifiers.rs'); pt = read('package_type.rs'); wk = read('qualifiers/well_known.rs'); ps = read('parse.rs')
+LIT = r"b'(?:\\.|\\x[0-9a-fA-F]{2}|[^\\])'"
+def do_sets():
+    sets = {'CONTROLS': set(range(0, 32)) | {127}, 'NON_ALPHANUMERIC': set(range(128)) - set(range(48, 58)) - set(range(65, 91)) - set(range(97, 123))}
+    out['sets'] = {}
+    for m in re.finditer(r'const\s+(\w+)\s*:\s*&AsciiSet\s*=\s*&\s*(\w+)((?:\s*\.\s*(?:add|remove)\(\s*' + LIT + r'\s*\))*)\s*;', fmt):
+        name, base, chain = m.groups()
+        if base not in sets: out['problems'].append(f'set {name}: unknown base {base}'); continue
+        cur = set(sets[base])
+        for op, lit in re.findall(r"\.\s*(add|remove)\(\s*(" + LIT + r")\s*\)", chain):
+            (cur.add if op == 'add' else cur.discard)(byte_lit(lit))
+        sets[name] = cur
+        out['sets'][name] = {'line': fmt[:m.start()].count('\n') + 1, 'members': sorted(cur)}
+    n_consts = len(re.findall(r'const\s+\w+\s*:\s*&AsciiSet', fmt))
+    if n_consts != len(out['sets']): out['problems'].append(f'{n_consts - len(out["sets"])} AsciiSet constant(s) in format.rs have an unrecognised form')
+    use = {}
+    for m in re.finditer(r'utf8_percent_encode\(\s*([\w.()&*]+)\s*,\s*(\w+)\s*\)', fmt):
+        arg = m.group(1).replace('self.', '').replace('()', '').lstrip('&*')
+        use.setdefault(arg, []).append(m.group(2))
+    out['use'] = use
+attempt('escape sets', do_sets)
+def char_list(src, start, const):
+    seg = src[src.index(start):]
+    m = re.search(const + r"\s*:\s*&\[char\]\s*=\s*&\[([^\]]*)\]", seg)
+    if not m: raise ValueError(const + ' not found')
     return [ord(c) for c in re.findall(r"'(.)'", m.group(1))]
-lib = read('lib.rs'); q = read('qualifiers.rs'); pt = read('package_type.rs'); wk = read('qualifiers/well_known.rs'); ps = read('parse.rs')
-out['type_special'] = char_list(lib[lib.index('fn is_valid_package_type'):], 'is_valid_package_type', 'ALLOWED_SPECIAL_CHARS')
-out['key_special'] = char_list(q[q.index('fn is_valid_qualifier_name'):], 'is_valid_qualifier_name', 'ALLOWED_SPECIAL_CHARS')
-out['dash_chars'] = char_list(pt, 'fix_pypi_name', 'DASH_CHARACTERS')
-# --- type table
-out['phf'] = re.findall(r'UniCase::ascii\("([^"]*)"\)\s*=>\s*PackageType::(\w+)', pt)
-nm = pt[pt.index('pub const fn name'):]; nm = nm[:nm.index('\n    }\n')]
-out['name'] = re.findall(r'PackageType::(\w+)\s*=>\s*"([^"]*)"', nm)
-# --- variation points
+def do_lists():
+    out['type_special'] = char_list(lib, 'fn is_valid_package_type', 'ALLOWED_SPECIAL_CHARS')
+    out['key_special'] = char_list(q, 'fn is_valid_qualifier_name', 'ALLOWED_SPECIAL_CHARS')
+    out['dash_chars'] = char_list(pt, 'fn fix_pypi_name', 'DASH_CHARACTERS')
+attempt('character lists', do_lists)
+def do_types():
+    out['phf'] = re.findall(r'UniCase::ascii\("([^"]*)"\)\s*=>\s*PackageType::(\w+)', pt)
+    nm = pt[pt.index('pub const fn name'):]; nm = nm[:nm.index('\n    }\n')]
+    out['name'] = [list(x) for x in re.findall(r'PackageType::(\w+)\s*=>\s*"([^"]*)"', nm)]
+attempt('type table', do_types)
 def scan_form(fn):
     body = lib[lib.index('fn ' + fn):]; body = body[:body.index('\n}\n')]
     m = re.search(r'for c in s\.chars\(\) \{\s*if (.*?) \{', body, re.S)
-    cond = m.group(1).strip() if m else None
+    cond = re.sub(r'\s+', ' ', m.group(1).strip()) if m else None
     return {'c.is_uppercase()': 'ScanUpper', 'c.to_lowercase().ne([c])': 'ScanLowerNe'}.get(cond, f'UNRECOGNISED:{cond}')
-out['scan_in_place'] = scan_form('lowercase_in_place'); out['scan_copy'] = scan_form('copy_as_lowercase')
-m = re.search(r'String::with_capacity\((.*?)\);\n', wk, re.S)
-cap = re.sub(r'\s+', '', m.group(1)) if m else None
-CAP = {"algorithms.iter().map(|(k,v)|k.len()+1+v.len()).sum::<usize>()+algorithms.len()-1,": 'CapMinus1',
-       "(algorithms.iter().map(|(k,v)|k.len()+1+v.len()).sum::<usize>()+algorithms.len()).saturating_sub(1),": 'CapSaturating'}
-out['cap_form'] = CAP.get(cap, f'UNRECOGNISED:{cap}')
-m = re.search(r'PackageType::Maven => \{\s*if (.*?) \{', pt, re.S)
-mv = m.group(1).strip() if m else None
-out['maven_ns'] = {'parts.namespace.is_empty()': 'NsIsEmpty', "parts.namespace.split('/').all(str::is_empty)": 'NsNoSegment'}.get(mv, f'UNRECOGNISED:{mv}')
-fs = ps[ps.index('fn from_str'):ps.index('fn decode_subpath')]
-out['skeleton'] = re.findall(r"\.(strip_prefix|trim_start_matches|rsplit_once|split_once)\((?:\"([^\"]*)\"|'(.)')\)", fs)
-out['scheme_fmt'] = re.findall(r'"(pkg:\{\}/)"', fmt)
-out['checksum_key'] = re.findall(r'impl KnownQualifierKey for Checksum<\'_> \{\s*const KEY: &\'static str = "([^"]*)"', wk)
-out['typed_keys'] = re.findall(r'str_ref_qualifier!\((\w+), "([^"]*)"', wk + read('qualifiers/well_known/gem.rs') + read('qualifiers/well_known/maven.rs'))
+def do_vps():
+    out['scan_in_place'] = scan_form('lowercase_in_place'); out['scan_copy'] = scan_form('copy_as_lowercase')
+    m = re.search(r'String::with_capacity\((.*?)\);\n', wk, re.S)
+    cap = re.sub(r'\s+', '', m.group(1)) if m else None
+    CAP = {"algorithms.iter().map(|(k,v)|k.len()+1+v.len()).sum::<usize>()+algorithms.len()-1,": 'CapMinus1',
+           "(algorithms.iter().map(|(k,v)|k.len()+1+v.len()).sum::<usize>()+algorithms.len()).saturating_sub(1),": 'CapSaturating'}
+    out['cap_form'] = CAP.get(cap, f'UNRECOGNISED:{cap}')
+    m = re.search(r'PackageType::Maven => \{\s*if (.*?) \{', pt, re.S)
+    mv = re.sub(r'\s+', ' ', m.group(1).strip()) if m else None
+    out['maven_ns'] = {'parts.namespace.is_empty()': 'NsIsEmpty', "parts.namespace.split('/').all(str::is_empty)": 'NsNoSegment'}.get(mv, f'UNRECOGNISED:{mv}')
+    fs = ps[ps.index('fn from_str'):ps.index('fn decode_subpath')]
+    out['skeleton'] = [list(x) for x in re.findall(r"\.(strip_prefix|trim_start_matches|rsplit_once|split_once)\((?:\"([^\"]*)\"|'(.)')\)", fs)]
+    out['checksum_key'] = re.findall(r'impl KnownQualifierKey for Checksum<\'_> \{\s*const KEY: &\'static str = "([^"]*)"', wk)
+    out['typed_keys'] = [list(x) for x in re.findall(r'str_ref_qualifier!\((\w+), "([^"]*)"', wk + read('qualifiers/well_known/gem.rs') + read('qualifiers/well_known/maven.rs'))]
+attempt('variation points', do_vps)
 print(json.dumps(out, indent=1))
